@@ -92,6 +92,49 @@ main(void)
             ly_in_free(in, 0);
             ly_err_clean(ctx, NULL);
             free(s);
+        } else if (!strcmp(comp, "xmlrt")) {
+            /* round trip at function level: lyxml_dump_text(text, attribute), then the terminator ('<' for content,
+             * '"' for an attribute value) and "/", read back by lyxml_parse_value. Prints the value read, whether
+             * the lexer stopped exactly at the terminator, and the white-space-only flag. */
+            size_t len, vlen = 0, plen;
+            int attr = atoi(c.f[1]);
+            char *s = vunhex(c.f[2], &len), *mem = NULL, *doc, *val = NULL;
+            struct ly_out *out = NULL;
+            struct ly_in *in = NULL;
+            struct lyxml_ctx x;
+            ly_bool ws = 0, dyn = 0;
+
+            ly_out_new_memory(&mem, 0, &out);
+            if (lyxml_dump_text(out, s, attr)) {
+                printf("E print");
+            } else {
+                plen = mem ? strlen(mem) : 0;
+                doc = malloc(plen + 3);
+                if (plen) {
+                    memcpy(doc, mem, plen);
+                }
+                doc[plen] = attr ? '"' : '<';
+                doc[plen + 1] = '/';
+                doc[plen + 2] = '\0';
+                memset(&x, 0, sizeof x);
+                ly_in_new_memory(doc, &in);
+                x.ctx = ctx;
+                x.in = in;
+                if (lyxml_parse_value(&x, attr ? '"' : '<', &val, &vlen, &ws, &dyn)) {
+                    printf("E parse");
+                } else {
+                    vputhex(val, vlen);
+                    printf(" %d %d", (size_t)(in->current - doc) == plen, (int)ws);
+                    if (dyn) {
+                        free(val);
+                    }
+                }
+                ly_in_free(in, 0);
+                ly_err_clean(ctx, NULL);
+                free(doc);
+            }
+            ly_out_free(out, NULL, 1);
+            free(s);
         } else {
             printf("?");
         }
